@@ -917,6 +917,9 @@ func (vc *FuncVC) strMem() Term {
 	}
 	t := vc.sc.DeclP("STR", SArr(SInt, SArr(vc.enc.Idx(), vc.byteSort())))
 	vc.entry["STR"] = t
+	if vc.enc.Mode == ModeInt {
+		vc.sc.AssumeP(Term{fmt.Sprintf("(forall ((r?s Int) (k?s Int)) (! (and (<= 0 (select (select %s r?s) k?s)) (<= (select (select %s r?s) k?s) 255)) :pattern ((select (select %s r?s) k?s))))", t.S, t.S, t.S), SBool}, "string bytes are bytes")
+	}
 	return t
 }
 
